@@ -20,7 +20,9 @@ META = {
                    'memoised callee summaries and inlined isError() predicates for signed-overflow obligations on every +, - and * '
                    'of the date/time value types (R8); year narrowing gate (R9); composite isError() truth tables (R7); cold-cache '
                    'acceptance of init() on the corner dates of the supported years (R4-accept); def-use rule for the Python '
-                   'buffer-size estimator (R5-est).',
+                   'buffer-size estimator (R5-est); copyAndReplace() interpreted (E-SEQ, typed) on every short source string, replacement and '
+                   'buffer size with guard cells behind the buffer (R2-copy); the interval domain knows the remainder written as '
+                   'x - c * (x / c).',
     'decided': 'no dereference of an untested nullable result; every indexed store/address into a fixed array is inside its '
                'capacity (given the listed, data-discharged exceptions); every epoch accessor/factory/parser tests its error '
                'condition first; fill code runs only inside the supported year range and init() accepts every date of that range; '
@@ -583,7 +585,11 @@ def accept_rule(R, lib, cls, f):
     c = '%s:accepts[startYear,untilYear)' % f.name
     R.instance('R4-accept', c, f.loc, '%d paths' % len(s.paths))
     bad = []
-    for (y, m, d) in ((S_, 1, 1), (S_, 1, 2), (S_, 12, 31), (S_ + 1, 1, 1), (2025, 6, 15), (U_ - 1, 1, 1), (U_ - 1, 12, 31)):
+    R.rule('R4-reject', 'init() refuses every date at least a year outside the zone data (before startYear - 1, after untilYear) on a cold cache', floor=2)
+    R.instance('R4-reject', '%s:rejects-outside' % f.name, f.loc)
+    outside = ((S_ - 2, 6, 15), (S_ - 2, 12, 31), (S_ - 3, 1, 1), (U_ + 1, 1, 2), (U_ + 1, 6, 15), (U_ + 1, 12, 31), (U_ + 2, 1, 1), (1873, 1, 1), (2127, 12, 31))
+    bad_out = []
+    for (y, m, d) in ((S_, 1, 1), (S_, 1, 2), (S_, 12, 31), (S_ + 1, 1, 1), (2025, 6, 15), (U_ - 1, 1, 1), (U_ - 1, 12, 31)) + outside:
         vals = {'year': y, 'yearTiny': y - epoch, 'month': m, 'day': d, 'startYear': S_, 'untilYear': U_}
         base = arith_assign({})
 
@@ -629,8 +635,14 @@ def accept_rule(R, lib, cls, f):
         if undecided or len(outcomes) != 1:
             raise AnalysisError('%s: the guards of init() could not be evaluated for the date %04d-%02d-%02d (%s)' % (f.loc, y, m, d, sorted(outcomes, key=str)))
         (kind, val), = outcomes
-        if not (kind == 'return' and val == 1):
+        if (y, m, d) in outside:
+            if not (kind == 'return' and val == 0):
+                bad_out.append('%04d-%02d-%02d' % (y, m, d))
+        elif not (kind == 'return' and val == 1):
             bad.append('%04d-%02d-%02d' % (y, m, d))
+    if bad_out:
+        R.violation('R4-reject', '%s:rejects-outside' % f.name, f.loc, 'with startYear=%d and untilYear=%d a cold init() succeeds for the UTC date(s) %s, a year or more outside the '
+                    'zone data: offsets and abbreviations are computed from eras and rules that do not cover those years instead of the error value' % (S_, U_, ', '.join(bad_out)))
     if bad:
         R.violation('R4-accept', c, f.loc, 'with startYear=%d and untilYear=%d a cold init() fails for the UTC date(s) %s, which lie in the supported years: every '
                     'offset, abbreviation and conversion for those instants is the error value' % (S_, U_, ', '.join(bad)))
@@ -935,11 +947,89 @@ def composite_error_rule(R, lib):
             R.violation('R7', c, f.loc, 'isError() is not the disjunction of its components: for %s it answers %s' % (bad, sorted(vals, key=str)))
 
 
+def total_predicate_rule(R, lib):
+    """isError() and the field getters of the date / time value types must be answerable for *every* content of the stored bytes
+    (values come out of EEPROM, out of the mutation helpers, out of forComponents with unchecked arguments): each is interpreted
+    (E-SEQ, typed, the real bodies incl. the month-length and weekday tables) on every combination of boundary values of the
+    stored fields; a read outside a constant table is reported with the field values.  The printing and conversion members are
+    asked only of values whose isError() is false, on the same combinations."""
+    from .aeval import AEval, AObj, CxxModule, Raised, cxx_object
+    import itertools
+    R.rule('R2-table', 'isError() of the date / time value types, and the conversions of the values it admits, read the constant tables inside their bounds for every content of the stored fields (interpreted)', floor=3)
+    mod = CxxModule(lib, ['ace_time::'])
+    vals8 = {'year': (-128, -127, -1, 0, 99, 127), 'month': (0, 1, 2, 12, 13, 255), 'day': (0, 1, 28, 29, 30, 31, 32, 255),
+             'hour': (0, 23, 24, 25, 255), 'minute': (0, 59, 60, 255), 'second': (0, 59, 60, 255)}
+
+    def domain(fname):
+        n = fname.lower()
+        for k in vals8:
+            if k in n:
+                return vals8[k]
+        return None
+
+    def call(f, recv):
+        return AEval(module=mod, typed=True, max_steps=50000).call_function(f.name, [], recv=recv, chosen=CxxModule._Fn(f))
+    for cls in ('LocalDate', 'LocalTime', 'LocalDateTime'):
+        q = 'ace_time::' + cls
+        f = lib.fn(q + '::isError')
+        proto = cxx_object(lib, q)
+        leaves = []           # (path of attribute names, domain)
+
+        def walk(o, path):
+            for n_, v_ in o.attrs.items():
+                if isinstance(v_, AObj):
+                    walk(v_, path + (n_,))
+                elif domain(n_) is not None:
+                    leaves.append((path + (n_,), domain(n_)))
+        walk(proto, ())
+        if not leaves:
+            raise AnalysisError('%s: no year/month/day/hour/minute/second members found in %s' % (f.loc, cls))
+        after = [lib.fn(q + '::' + m) for m in ('toEpochDays', 'toEpochSeconds', 'dayOfWeek', 'toSeconds') if lib.has_fn(q + '::' + m)]
+        doms = [d for _p, d in leaves]
+        if cls == 'LocalDateTime':
+            doms = [d[:4] for d in doms]         # the product of six fields: the first four boundary values of each
+        n, bad = 0, {}
+        members = [('isError', f)] + [(g.name.split('::')[-1], g) for g in after if not g.params]
+        for combo in itertools.product(*doms):
+            o = cxx_object(lib, q)
+            for (path, _d), v in zip(leaves, combo):
+                tgt = o
+                for k in path[:-1]:
+                    tgt = tgt.attrs[k]
+                tgt.attrs[path[-1]] = AEval._wrap(v, (tgt.ftypes or {}).get(path[-1])) if getattr(tgt, 'ftypes', None) else v
+            n += 1
+            for mname, g in members:
+                if mname in bad:
+                    continue
+                try:
+                    call(g, o)
+                except IndexError as x_:
+                    bad[mname] = '%s() with the stored fields %s: a constant table is read outside its bounds (%s)' % (
+                        mname, ', '.join('%s=%d' % ('.'.join(p_), v_) for (p_, _d), v_ in zip(leaves, combo)), x_)
+                except Raised as x_:
+                    bad[mname] = '%s() with the stored fields %s: raises %s' % (mname, ', '.join('%s=%d' % ('.'.join(p_), v_) for (p_, _d), v_ in zip(leaves, combo)), x_.what)
+        for mname, g in members:
+            c = '%s::%s:stored-fields' % (cls, mname)
+            R.instance('R2-table', c, g.loc, '%d field combinations interpreted' % n, n=1)
+            if mname in bad:
+                R.violation('R2-table', c, g.loc, bad[mname])
+    g = lib.fn('ace_time::LocalDate::daysInMonth')
+    c = 'LocalDate::daysInMonth:arguments'
+    R.instance('R2-table', c, g.loc)
+    for month in (0, 1, 2, 12, 13, 255):
+        try:
+            AEval(module=mod, typed=True, max_steps=5000).call_function(g.name, [2001, month], chosen=CxxModule._Fn(g))
+        except IndexError as x_:
+            R.violation('R2-table', c, g.loc, 'daysInMonth(2001, %d) reads the month-length table outside its bounds (%s)' % (month, x_))
+            break
+
+
 def run(cfg):
     R = Report('C09', cfg)
     lib = cxx.load_lib(cfg)
     R.analysed['translation_units'] = ['tu/lib.cpp', 'tu/tables_zonedb.cpp', 'tu/tables_zonedbx.cpp']
     composite_error_rule(R, lib)
+    total_predicate_rule(R, lib)
     estimator_rule(cfg, R)
     from . import rules_C09c
     rules_C09c.overflow_rules(R, lib)
@@ -976,6 +1066,10 @@ SELFTEST = [
          find=r'acetime_t days = \(epochSeconds < 0\)\n[^;]*;\n(.|\n)*?acetime_t seconds = \(acetime_t\) \(\(uint32_t\) epochSeconds\n\s+- \(uint32_t\) 86400 \* \(uint32_t\) days\);',
          replace='acetime_t days = epochSeconds / 86400;\n        if (epochSeconds < 0) days--;\n        acetime_t seconds = epochSeconds - 86400 * days;',
          rule='R8', construct='LocalDateTime'),
+    dict(id='day-checked-against-month-length-before-the-month', file='src/ace_time/LocalDate.h', find='          || mDay < 1 || mDay > 31\n',
+         replace='          || mDay < 1 || mDay > daysInMonth(year(), mMonth)\n', rule='R2-table', construct='LocalDate'),
+    dict(id='until-year-given-one-more', file='src/ace_time/ExtendedZoneProcessor.h', find='      if (year < mZoneInfo.startYear() - 1 || mZoneInfo.untilYear() < year) {',
+         replace='      if (year < mZoneInfo.startYear() - 1 || mZoneInfo.untilYear() + 1 < year) {', rule='R4-reject', construct='ExtendedZoneProcessor'),
     dict(id='offset-seconds-factor-too-large', file='src/ace_time/TimeOffset.h', find='return (int32_t) 60 * toMinutes();', replace='return (int32_t) 70000 * toMinutes();',
          rule='R8', construct='TimeOffset::toSeconds'),
     dict(id='time-period-seconds-spelling-silent', file='src/ace_time/TimePeriod.h', regex=True,
